@@ -21,7 +21,16 @@ pub struct HistCfg {
 
 /// Execute one history under the C01 monitors. Shared with other properties' checks.
 pub fn run_history(tag: &str, index: u64, n_replicas: usize, kinds: &[StoreKind], hist: &[Act], out: &mut CaseOut) {
+    run_history_urgency(tag, index, n_replicas, kinds, hist, None, out)
+}
+
+/// As `run_history`; with `urgency` the server asks for snapshots, stores what it is given and
+/// offers the latest one to whoever asks (replicas that are still empty).
+pub fn run_history_urgency(tag: &str, index: u64, n_replicas: usize, kinds: &[StoreKind], hist: &[Act], urgency: Option<taskchampion::server::SnapshotUrgency>, out: &mut CaseOut) {
     let chain = ChainRef::new();
+    if let Some(u) = urgency {
+        chain.0.borrow_mut().urgency_default = u;
+    }
     let mut reps: Vec<R> = (0..n_replicas).map(|i| new_replica(i, kinds[i % kinds.len()], &chain)).collect();
     let replay = json!({"stratum": tag, "index": index, "replicas": n_replicas, "history": show_history(hist)});
     let mut conflict_syncs = 0u64;
@@ -122,6 +131,12 @@ pub fn run_history(tag: &str, index: u64, n_replicas: usize, kinds: &[StoreKind]
     out.count("multi_batch_syncs", multi_batch);
     out.count("multi_batch_syncs_with_incoming", multi_batch_rebased);
     out.count("chain_versions", chain.0.borrow().versions.len() as u64);
+    if urgency.is_some() {
+        let c = chain.0.borrow();
+        out.count("snapshots_stored", c.snapshots.len() as u64);
+        out.count("snapshots_served", c.events.iter().filter(|e| matches!(e, Ev::GetSnapshot { returned: Some(_), .. })).count() as u64);
+        out.count("snapshot_requests", c.events.iter().filter(|e| matches!(e, Ev::GetSnapshot { .. })).count() as u64);
+    }
     if conflict_syncs > 0 || multi_batch > 0 {
         out.nontrivial = Some(fnv(format!("{executed:?}").as_bytes()));
     }
@@ -238,6 +253,53 @@ pub fn run(ctx: &Ctx) -> Outcome {
             out
         });
     }
+    if want("late-joiner") {
+        // the server holds a snapshot; a replica that has never synchronized makes local changes
+        // to the same tasks (often ones that cancel out: create + delete) and only then joins
+        let (lo, hi) = range(ctx.tier.pick(150, 6000));
+        run_cases(&mut acc, "late-joiner", hi - lo, |i| {
+            let i = i + lo;
+            let mut rng = Rng::derive(seed, "c01-late", i);
+            let replicas = 3;
+            let kinds = [StoreKind::Mem, if i % 2 == 0 { StoreKind::Sqlite } else { StoreKind::Mem }, StoreKind::Mem];
+            let cfg = GenCfg { replicas, tasks: 1 + rng.below(2), props: 2, actions: 0, max_batch: 3, big_per_mille: 0, sync_per_cent: 0 };
+            let mut g = Gen::new(rng, cfg);
+            let mut hist = vec![];
+            for _ in 0..(1 + g.rng.below(3)) {
+                let r = if g.rng.chance(2, 3) { 0 } else { 2 };
+                let ops = (0..1 + g.rng.below(3)).map(|_| g.abs_op(r)).collect();
+                hist.push(Act::Commit { r, ops });
+                hist.push(Act::Sync { r });
+            }
+            // the joiner's changes before its first sync
+            let u = *g.rng.pick(&g.uuids.clone());
+            let mut ops = vec![];
+            match g.rng.below(4) {
+                0 => ops.extend([AbsOp::Create(u), AbsOp::Delete(u)]),
+                1 => ops.extend([AbsOp::Create(u), g.abs_op(1), AbsOp::Delete(u)]),
+                2 => ops.extend([AbsOp::UndoPoint]),
+                _ => ops.extend([g.abs_op(1), g.abs_op(1)]),
+            }
+            hist.push(Act::Commit { r: 1, ops });
+            hist.push(Act::Sync { r: 1 });
+            for _ in 0..g.rng.below(5) {
+                let r = g.rng.below(3);
+                if g.rng.chance(1, 2) {
+                    let ops = (0..1 + g.rng.below(2)).map(|_| g.abs_op(r)).collect();
+                    hist.push(Act::Commit { r, ops });
+                } else {
+                    hist.push(Act::Sync { r });
+                }
+            }
+            let mut out = CaseOut::new();
+            let urgency = if g.rng.chance(1, 2) { taskchampion::server::SnapshotUrgency::High } else { taskchampion::server::SnapshotUrgency::Low };
+            run_history_urgency("late-joiner", i, replicas, &kinds, &hist, Some(urgency), &mut out);
+            if out.nontrivial.is_none() && out.violations.is_empty() {
+                out.nontrivial = Some(fnv(format!("late{i}").as_bytes()));
+            }
+            out
+        });
+    }
     if want("bigvalue") {
         let (lo, hi) = range(ctx.tier.pick(60, 3000));
         run_cases(&mut acc, "bigvalue", hi - lo, |i| {
@@ -278,11 +340,12 @@ pub fn run(ctx: &Ctx) -> Outcome {
     if only.is_none() {
         acc.require("multi_batch_syncs", 1, "no sync sent its pending changes as several versions");
         acc.require("multi_batch_syncs_with_incoming", 1, "no multi-version sync had to rebase over incoming versions");
+        acc.require("snapshots_stored", 50, "the late-joiner stratum stored too few snapshots");
         acc.require("conflict_syncs", 1, "no sync pulled a version touching a task with pending local changes");
     }
     Outcome {
         level: "exploration",
-        rule: "seeded random action histories (1-5 replicas, 1-3 tasks, 1-3 properties, tied/decreasing/far timestamps, batches, big values >1MB strata, SQLite stratum) + regression corpus + exhaustive tiny core; a case is non-trivial iff some sync pulled a version touching a task with pending local changes or pushed >=2 versions; distinct by hash of the executed concrete operation sequence".into(),
+        rule: "seeded random action histories (1-5 replicas, 1-3 tasks, 1-3 properties, tied/decreasing/far timestamps, batches, big values >1MB strata, SQLite stratum, late-joiner stratum: server holds snapshots and a never-synced replica with pending changes joins) + regression corpus + exhaustive tiny core; a case is non-trivial iff some sync pulled a version touching a task with pending local changes or pushed >=2 versions; distinct by hash of the executed concrete operation sequence".into(),
         acc,
         exhaustive,
         assumptions: vec![
